@@ -12,6 +12,7 @@ import (
 	"flag"
 	"fmt"
 	"hash/fnv"
+	"math"
 	"os"
 	"path/filepath"
 	"runtime/debug"
@@ -579,9 +580,15 @@ func Run[C any](t *testing.T, spec Spec[C]) {
 	s.Completed = true
 	// generator health
 	for l, frac := range spec.MinLabelFrac {
-		got := float64(s.Labels[l]) / float64(max64(s.Evaluations, 1))
-		if got < frac {
-			s.Health = append(s.Health, fmt.Sprintf("label %q in %.4f of evaluations, need >= %.4f", l, got, frac))
+		n := float64(max64(s.Evaluations, 1))
+		got := float64(s.Labels[l]) / n
+		// The minimum describes the generator's distribution; a shard of n cases observes it with sampling noise. A miss is
+		// reported only when the observed fraction lies more than four standard errors below the minimum (a generator that
+		// lost the class altogether is still caught: for n = 30 and a minimum of 0.3 the bar is 0, i.e. "never seen", for
+		// n = 1000 it is 0.24).
+		bar := frac - 4*math.Sqrt(frac*(1-frac)/n)
+		if (bar > 0 && got < bar) || (bar <= 0 && s.Labels[l] == 0) {
+			s.Health = append(s.Health, fmt.Sprintf("label %q in %.4f of %d evaluations, need >= %.4f (bar %.4f)", l, got, int64(n), frac, bar))
 		}
 	}
 	if len(s.Health) > 0 {
